@@ -31,7 +31,17 @@ def kmode (t : Tokens) : String :=
 
 def kfromos (t : Tokens) : String := s!"m={Mode.fromOS (t.nat "os")}"
 
+/-- kltype: every way localfs reports a file's QID type gives the type of the mode it reports
+(`Mode.qidType`, the table of C20) -/
+def kltype (t : Tokens) : String :=
+  let q := Mode.qidType (t.nat "m")
+  s!"qt={q} attrqt={q} listedqt={q} listedsamepath=1"
+
 /-- the concurrent mapper monitor: the property itself. -/
 def kmapc (_ : Tokens) : String := "unstable=0 collide=0"
+
+/-- kmapbig: the table never forgets (`mapper_stable`, `mapper_injective` hold for every history,
+whatever its length) -/
+def kmapbig (_ : Tokens) : String := "unstable=0 collide=0"
 
 end P9.Driver
